@@ -226,6 +226,7 @@ class Check:
         self.notes = []
         self.phases = {}
         self._tmark = time.time()
+        self.stale = []        # conformance divergences that are not property violations
 
     def mark(self, name):
         now = time.time()
@@ -272,6 +273,14 @@ class Check:
             print("VIOLATION property=%s replay=%s" % (self.pid, path))
             print("  signature: %s" % sig)
             rc = 1
+        if rc == 0 and self.stale:
+            # the code no longer follows the model but no property-level failure was observed:
+            # the verdict is unknown, which is a tool error and never an alarm
+            for m in self.stale[:5]:
+                print("CONFORMANCE-DIVERGENCE property=%s %s" % (self.pid, m))
+            print("TOOL-ERROR property=%s: implementation diverges from the specification without an observed property violation; the model must be brought up to date" % self.pid)
+            cleanup()
+            return 2
         if rc == 0:
             print("OK property=%s tier=%s wall=%.1fs %s" % (self.pid, self.tier, time.time() - self.t0,
                                                           json.dumps({k: v for k, v in self.cov.items() if isinstance(v, (int, bool))})))
